@@ -411,7 +411,7 @@ impl Monitor for C15 {
         "C15"
     }
     fn gens(&self, tier: Tier) -> Vec<(&'static str, u64)> {
-        let k = tier.pick(3, 100);
+        let k = tier.pick(60, 1200);
         vec![("binary", 8000 * k), ("mismatch", 4000 * k), ("scalar", 3000 * k), ("mean", 3000 * k), ("nested", 1500 * k), ("linalg", 2000 * k)]
     }
     fn rule(&self) -> &'static str {
